@@ -52,27 +52,30 @@ CONFIGS = {
         # cones, empty rows, zeros stored explicitly (0.0 and -0.0), columns in no row
         cfg('cone', Cols=3, CoefSet={Z, 4}, RhsSet={Z, 4}, LbSet={1}, UbSet={13}, EzSet={0, 1, 2}, WithCone=True,
             ClsSet=ALLCLS, ModeSet={'primal', 'dual'}),
-        # several rows
-        cfg('rows', MaxRows=3, CoefSet={Z, 4}, RhsSet={10}, VtSet={'C', 'I'}, ClsSet={'LinProg', 'GCProg'}),
+        # several rows; robust counterparts compiled by ro.Model
+        cfg('rows', MaxRows=3, CoefSet={Z, 4}, RhsSet={10}, VtSet={'C', 'I'}, ClsSet={'LinProg', 'GCProg'},
+            ModeSet={'primal', 'robust'}),
     ],
     'thorough': [
         cfg('coef', CoefSet={2, 3, 4, 5, 6, Z, 8, 9, 10, 11, 12}, RhsSet={2, 3, 6, Z, 8, 12},
             ClsSet=ALLCLS, ModeSet={'primal', 'dual'}),
         cfg('bounds1', Cols=1, CoefSet={4, 10, 8}, RhsSet={11, 6}, LbSet={1, Z, 10, 3, 6}, UbSet={13, Z, 11, 4},
             VtSet={'C', 'B', 'I'}, ObjSet={10, 4, Z}, ClsSet=ALLCLS, DirSet={'min', 'max'}),
-        cfg('bounds2', CoefSet={4, 10}, LbSet={1, Z, 3}, UbSet={13, Z, 11}, VtSet={'C', 'B', 'I'}, ObjSet={10, 4},
+        cfg('bounds2', CoefSet={4, 10}, LbSet={1, Z, 3}, UbSet={13, Z, 11}, VtSet={'C', 'B', 'I'},
             ClsSet={'LinProg', 'GCProg'}),
         cfg('cone', Cols=3, CoefSet={Z, 4, 11}, RhsSet={Z, 4}, LbSet={1}, UbSet={13}, EzSet={0, 1, 2}, WithCone=True,
             ClsSet=ALLCLS, ModeSet={'primal', 'dual'}),
-        cfg('conemix', Cols=3, MaxRows=0, LbSet={1, Z}, UbSet={13, 11}, VtSet={'C', 'I', 'B'}, WithCone=True,
+        cfg('conemix', Cols=3, MaxRows=0, LbSet={1, Z}, UbSet={13}, VtSet={'C', 'I', 'B'}, WithCone=True,
             ClsSet={'SOCProg', 'GCProg'}),
-        cfg('rows', MaxRows=3, CoefSet={Z, 4, 9}, RhsSet={10}, VtSet={'C', 'I'}, ClsSet={'LinProg', 'GCProg'},
-            ModeSet={'primal'}),
-        cfg('dualrows', MaxRows=2, CoefSet={Z, 4, 11}, RhsSet={3, Z, 8, 12}, LbSet={1, Z}, UbSet={13, 11},
-            ObjSet={10, 4}, ClsSet={'LinProg', 'SOCProg'}, ModeSet={'dual'}, DirSet={'min', 'max'}),
+        cfg('rows', MaxRows=3, CoefSet={Z, 4}, RhsSet={10}, VtSet={'C', 'I'}, ClsSet={'LinProg', 'GCProg'},
+            ModeSet={'primal', 'robust'}),
+        cfg('rows2', MaxRows=2, CoefSet={Z, 4, 9}, RhsSet={10, 6}, VtSet={'C', 'I'}, ClsSet={'LinProg', 'GCProg'},
+            ModeSet={'primal', 'robust'}, DirSet={'min', 'max'}),
+        cfg('dualrows', MaxRows=2, CoefSet={4, 11}, RhsSet={3, Z, 8}, UbSet={13, 11},
+            ClsSet={'LinProg', 'SOCProg'}, ModeSet={'dual'}, DirSet={'min', 'max'}),
     ],
 }
-CAP = {'quick': 420, 'thorough': 9000}
+CAP = {'quick': 420, 'thorough': 6000}
 NCONTROL_BASES = {'quick': 40, 'thorough': 150}
 
 REQUIRED_CLASSES = [
@@ -81,7 +84,7 @@ REQUIRED_CLASSES = [
     'vtype-C', 'vtype-B', 'vtype-I', 'lb--inf', 'lb-zero', 'lb-neg', 'lb-pos', 'ub-+inf', 'ub-zero', 'ub-pos',
     'fixed-column', 'binary-with-user-bound', 'cone', 'cone-one-member', 'row-eq', 'row-le', 'objective-general',
     'objective-negative-coef', 'exponent-notation-in-text', 'negative-exponent-in-text',
-    'cls-LinProg', 'cls-SOCProg', 'cls-GCProg', 'mode-primal', 'mode-dual', 'dir-min', 'dir-max',
+    'cls-LinProg', 'cls-SOCProg', 'cls-GCProg', 'mode-primal', 'mode-dual', 'mode-robust', 'dir-min', 'dir-max',
     'outcome-optimal', 'outcome-infeasible', 'outcome-unbounded']
 
 GEN_ACTIONS = ['AddCol', 'AddRow', 'AddCone', 'Finish']
@@ -461,7 +464,7 @@ def run(rep, tier, props):
                     raise tlc.MachineryError('acceptor does not reject a corrupted stream (%s): %s on %s'
                                              % (tr['name'], v, r['recsig']))
     nbuilt = 0
-    outcomes = {}
+    notekinds = {}
     agree = dict(file_vs_formula={}, tokens_vs_formula={})
     for job, r in zip(jobs, results):
         rep.count(key=('LpFormat', r['recsig']))
@@ -477,7 +480,9 @@ def run(rep, tier, props):
             if vv is not None:
                 agree[kk][vv] = agree[kk].get(vv, 0) + 1
         for n in r['notes'][:1]:
-            if len(rep.notes) < 12:
+            kind = n.split(':')[0][:40]
+            notekinds[kind] = notekinds.get(kind, 0) + 1
+            if notekinds[kind] <= 2:
                 rep.note('%s: %s' % (r['recsig'], n))
     missing = [c for c in REQUIRED_CLASSES if not classes.get(c)]
     if missing:
@@ -491,7 +496,7 @@ def run(rep, tier, props):
         binding_controls=dict(corrupted_total=ctl['neg_total'], corrupted_rejected=ctl['neg_rejected'],
                               equivalent_total=ctl['pos_total'], equivalent_accepted=ctl['pos_accepted'],
                               by_kind={k: v[0] for k, v in sorted(ctl['names'].items())}),
-        flags=FLAGS)
+        flags=FLAGS, replay_notes_by_kind=notekinds)
     shown = 0
     for job, r in zip(jobs, results):
         if r['P'] is not None and shown < 3 and (shown > 0 or 'cone' in r['classes']):
